@@ -65,18 +65,6 @@ def encObs (o : Obs) : String :=
   (match o.ran with | some r => s!" 1 {r}" | none => " 0") ++
   (if o.noRoute then " 1 " else " 0 ") ++ encStr o.pattern ++ " " ++ encKVs o.params ++ " " ++ encKVs o.lookups
 
-/-- the registered routes as the oracle sees them: full pattern text by plain concatenation of the
-group prefixes, parsed by the oracle's own parser. `none` when some pattern is outside the vocabulary. -/
-def specRoutes (script : List Reg) : Option (List Route) :=
-  let rec go (i : Nat) : List Reg → Option (List Route)
-    | [] => some []
-    | g :: gs =>
-      let text := g.groups.foldr (· ++ ·) g.path
-      match parsePattern text, go (i + 1) gs with
-      | some p, some rest => some ({ method := g.method, text := text, pat := p, cons := g.cons, rid := i } :: rest)
-      | _, _ => none
-  go 0 script
-
 /-- oracle verdict and finding class for one observed outcome of the plain tree engine (C01) -/
 def judge (c : Case) (o : Obs) : Bool × String :=
   let sat := satOf c.satTab
